@@ -112,11 +112,12 @@ impl RoaringBitmap {
         }
 
         // Using inclusive range avoids overflow: the max exclusive value is 2^32 (u32::MAX + 1).
-        let end_bit_inc = u32::try_from(bytes.len())
+        let end_bit_inc = u64::try_from(bytes.len())
             .ok()
             .and_then(|len_bytes| len_bytes.checked_mul(8))
             // `bytes` is non-empty, so len_bits is > 0
-            .and_then(|len_bits| offset.checked_add(len_bits - 1))
+            .and_then(|len_bits| u64::from(offset).checked_add(len_bits - 1))
+            .and_then(|end_bit_inc| u32::try_from(end_bit_inc).ok())
             .expect("offset + bytes.len() must be <= 2^32");
 
         // offsets are in bytes
